@@ -14,8 +14,8 @@ use std::sync::atomic::Ordering;
 use std::sync::{mpsc, Arc};
 use std::time::Duration;
 
-const EV_TIMEOUT: Duration = Duration::from_millis(4000);
-const ACK_TIMEOUT: Duration = Duration::from_millis(3000);
+const EV_TIMEOUT: Duration = Duration::from_millis(9000);
+const ACK_TIMEOUT: Duration = Duration::from_millis(8000);
 
 pub struct Val {
     hub: Arc<Hub>,
